@@ -39,7 +39,7 @@ func init() {
 			"text after the moves)",
 		Gen: func(rt *rapid.T, tier string) any {
 			r := rapidRnd{rt}
-			m := RandomTree(taxa(drawTaxa(rt, 4, 14), "t"), r, 2, true)
+			m := RandomTree(drawTaxaNames(rt, drawTaxa(rt, 4, 14)), r, 2, true)
 			for _, x := range m.all() {
 				if !x.IsTip() && x.Parent != nil && rapid.Bool().Draw(rt, "sup") {
 					x.Label = strconv.FormatFloat(float64(rapid.IntRange(0, 8).Draw(rt, "supv"))/8, 'f', -1, 64)
